@@ -227,6 +227,11 @@ for _l in ("php", "python"):
            "%s chain: FlattenDisjunctions (after DisjunctionWithNullToOptional) de-duplicates branches by type name / drops unresolvable references, turning `A | A' | null` into a two-branch `A | null`" % _l,
            r"lang=%s conjunct=NoNullPairUnion at=%s\S* input=(?!.*%s)(?!.*%s)" % (_l, _VIS, NESTED_DISJ, DISJ_IN_INDEX), "chain %s %s" % (_l, _W["W_FLATTEN_NULLPAIR"])),
     ]
+W_EMPTY_NAME = _schemas(_obj("E", _enum(("", "(i i64 0)", "int64"))))
+W_DASH_NAME = _schemas(_obj("A", _struct(("e", _enum(("-", "(i i64 0)", "int64")), True))))
+PROPOSED.insert(0, _f("C06/php/empty-enum-member-name-kept",
+                      "php chain: since fix aceba4d SanitizeEnumMemberNames returns a member whose name is empty unchanged (it used to panic on member.Name[0]); the name is empty in the input or becomes empty when AnonymousEnumToExplicitType camel-cases a name without letters or digits (`-`, `_`)",
+                      r"lang=php conjunct=EnumNames at=\S*member:\"\":unsanitised", "chain php %s" % W_DASH_NAME))
 for _l in ("python", "typescript"):
     PROPOSED += [
         _f("C06/%s/anonymous-enum-numeric-member" % _l,
@@ -340,6 +345,18 @@ def main():
             else:
                 log("witness", name, "no longer fails on the real chain:", r[2][:200])
             c.cov.setdefault("witnesses", {})[name] = "fails on the real chain (%s)" % conj if holds else "does NOT fail on the real chain any more"
+    # inputs on which the passes panicked before the /repo fixes (Passes/PreFix.lean): must pass now
+    fl = drv(["c06witness former"])[0]
+    nformer = int(fl.split(" ")[1]) if fl.startswith("ok ") else 0
+    if nformer:
+        freqs = drv(["c06witness former:%d" % i for i in range(nformer)])
+        frows = eval_requests(hb, freqs)
+        fmodel = drv(freqs)
+        bad = [(r[0][:300], r[1][:80], m[:80]) for r, m in zip(frows, fmodel) if not r[1].startswith("ok") or m != r[1]]
+        c.oblige("the %d inputs of the former panics (Passes/PreFix.lean) run without panic on the real passes and agree with the model" % nformer, not bad, bad[:3])
+        c.count("former-panics", nformer, freqs)
+    else:
+        c.oblige("the driver lists the former panic inputs", False, fl[:200])
     pinned = [(f["id"], f["pinned"]) for f in c.known if f.get("pinned")]
     if pinned:
         rows = eval_requests(hb, [p for _, p in pinned])
@@ -429,7 +446,7 @@ def main():
 PASS_STATUS = {
     "AnonymousStructsToNamed": "model+correspondence; post (StructsNamedOutsideAllOf, any wfIR input); keeps SimpleIndex and leaf entry points",
     "NotRequiredFieldAsNullableType": "model+correspondence; post (NonRequiredNullable given SimpleIndex); keeps every Mono/DisjConst test",
-    "DisjunctionWithNullToOptional": "model+correspondence; post (NoNullPairUnion given FlatUnions); keeps every Mono test",
+    "DisjunctionWithNullToOptional": "model+correspondence; post (NoNullPairUnion given FlatUnionsN = flat unions and no `null | null`, which the pass returns unchanged since fix 30da046); keeps every Mono test",
     "DisjunctionOfConstantsToEnum": "model+correspondence; keeps every test that does not constrain enums",
     "AnonymousEnumToExplicitType": "model+correspondence; post (EnumsNamed, any input with leaf entry points); no preservation lemma for other tests yet",
     "PrefixEnumValues": "model+correspondence; post (Go enum prefixes, any input); keeps every test that ignores member names",
@@ -439,7 +456,7 @@ PASS_STATUS = {
     "UndiscriminatedDisjunctionToAny": "model+correspondence; keeps every test that ignores Nullable (it does NOT keep NonRequiredNullable: the `any` it creates is not nullable)",
     "DisjunctionToType": "model+correspondence; post (NoUnion given FlatUnions); keeps every Shape test; keeps Go enum prefixes",
     "RemoveIntersections": "model+correspondence (shared field slices modelled); keeps every test that ignores fields",
-    "SanitizeEnumMemberNames": "model+correspondence; post (PHP member names given EnumsNamed); keeps every test that ignores member names",
+    "SanitizeEnumMemberNames": "model+correspondence; post (PHP member names given EnumsNamed and NonEmptyEnumNames; sign-free names given EnumsNamed alone — an empty name passes unchanged since fix aceba4d); keeps every test that ignores member names",
     "RenameNumericEnumValues": "model+correspondence; post (no numeric member names given EnumsNamed and names in int range); keeps every test that ignores member names",
     "InlineObjectsWithTypes": "model+correspondence ONLY (store threaded in visiting order to reproduce the declaration-order dependence); no theorem yet",
 }
@@ -447,7 +464,7 @@ PASS_STATUS = {
 CHAIN_THEOREMS = {
     "go": ["C06_go_EnumsNamed (all wfIR inputs)", "C06_go_EnumNames (all inputs)", "NoUnion/NoNullPairUnion/NonRequiredNullable/StructsNamedOutsideAllOf: refuted (counterexamples), pass-level post-conditions only"],
     "java": ["C06_java_EnumsNamed (all wfIR inputs)", "other conjuncts: refuted (counterexamples), pass-level post-conditions only"],
-    "php": ["C06_php_beforeInline: EnumsNamed and sanitised member names hold for the IR handed to the last pass (all wfIR inputs)",
+    "php": ["C06_php_beforeInline: EnumsNamed and sign-free member names hold for the IR handed to the last pass (all wfIR inputs)",
             "no theorem across InlineObjectsWithTypes (no preservation lemma); full statement refuted (that pass drops Nullable)"],
     "python": ["C06_python_StructsNamedOutsideAllOf (all wfIR inputs)", "C06_python_NonRequiredNullable_partial (SimpleIndex)", "NoNullPairUnion, EnumNames: refuted"],
     "typescript": ["C06_typescript_partial (EnumsNamed and NumericNamesInRange)", "full statement refuted"],
